@@ -39,7 +39,7 @@ vars == <<l, run, now, meta, eps, sendIdx, app, infl, sk, pairs, last, viol, cov
 RuleNames == {
     "C01.NoGarbage", "C01.SegStable", "C01.SegContiguous", "C01.ReadIsPrefix", "C01.ReadWithinWritten",
     "C02.IdleWrite", "C02.IdleShutdown", "C02.NoStall", "C02.Silence", "C02.CompletesOk",
-    "C03.FlushHonest", "C03.EofOnlyAfterFin", "C03.SuccessMeansDelivered", "C03.AbortSurfaces", "C03.NoSuccessAfterAbort",
+    "C03.FlushHonest", "C03.EofOnlyAfterFin", "C03.SuccessMeansDelivered", "C03.AbortSurfaces", "C03.NoSuccessAfterAbort", "C03.FinInSequence",
     "C04.AckExact", "C04.AckMonotone", "C04.SackExact", "C04.WindowHonest", "C04.WithinBuffer",
     "C04.ConsumeExact", "C04.OutOfOrderIsAhead", "C04.DuplicateIsOld", "C04.AlreadyPresentIsHeld",
     "C05.WindowRespected", "C05.ZeroWindowSilence", "C05.SlowStartBound", "C05.OneSegmentAfterRto",
@@ -390,6 +390,9 @@ Disp(r) ==
                     <<"C04.AlreadyPresentIsHeld", w = "already_present", R_C04_AlreadyPresentIsHeld(e, s)>>,
                     <<"C04.WithinBuffer", w \in {"consumed", "out_of_order"}, R_C04_WithinBuffer(e1)>>,
                     <<"C17.PeerFinInOrder", w = "fin_accepted", R_C17_PeerFinInOrder(e, s)>>,
+                    \* C03 "a reader sees end-of-stream only after every byte that preceded the peer's FIN": the end-of-stream
+                    \* marker enters the reassembly queue only at the position following the last in-order byte
+                    <<"C03.FinInSequence", w = "fin_accepted", R_C17_PeerFinInOrder(e, s)>>,
                     \* obligations opened here (coverage: an obligation counts as exercised when it is opened;
                     \* it is judged when the clock advances)
                     <<"C07.ImmediateAck", e1.ackImm > 0 /\ e.ackImm = 0, TRUE>>,
